@@ -244,6 +244,8 @@ class TU:
                     ln[0] += 1
             elif t in ("blank", "comment"):
                 ln[0] += 1
+            elif t == "bcomment":
+                ln[0] += it[1] + 2
             elif t == "cond":
                 taken = False
                 for kind, e, body in it[1]:
@@ -271,9 +273,14 @@ class TU:
             else:
                 here = ln[0]
                 ln[0] += 1
+                two = t == "define" and len(it) > 3 and it[3] == "ml" and it[2] is not None
+                if two:
+                    ln[0] += 1
                 if not active:
                     continue
                 self._use(rel, here)
+                if two:
+                    self._use(rel, here + 1)
                 if t == "define":
                     v = it[2]
                     if it[1] in self.macros and (self.macros[it[1]] or "") != (v or ""):
